@@ -97,6 +97,7 @@ class SArr(_np.ndarray):
         return r
 
     def astype(self, dtype, *a, **k):
+        dtype = _dt(dtype)
         dt = _np.dtype(dtype) if not isinstance(dtype, str) or dtype != "object" else _np.dtype(object)
         if dt.kind in "fc" or dt == object:
             r = self.copy()
@@ -157,6 +158,62 @@ class SArr(_np.ndarray):
 
     def tolist(self):
         return _np.ndarray.tolist(self)
+
+    def min(self, axis=None, out=None, keepdims=False, **kw):
+        return _fold_minmax(self, axis, keepdims, True)
+
+    def max(self, axis=None, out=None, keepdims=False, **kw):
+        return _fold_minmax(self, axis, keepdims, False)
+
+
+def _mm(a, b, is_min):
+    a, b = lift_strict(a), lift_strict(b)
+    c = (a <= b) if is_min else (a >= b)
+    if isinstance(c, builtins.bool):
+        return a if c else b
+    return S.where(c, a, b)
+
+
+def _fold_minmax(arr, axis, keepdims, is_min):
+    """min/max as nested If terms (no forking on the order of symbolic values)"""
+    a = arr.view(_np.ndarray)
+    if axis is None:
+        flat = a.ravel()
+        if flat.size == 0:
+            raise ValueError("zero-size array to reduction operation")
+        r = flat[0]
+        for x in flat[1:]:
+            r = _mm(r, x, is_min)
+        if keepdims:
+            o = _np.empty((1,) * a.ndim, dtype=object)
+            o[(0,) * a.ndim] = r
+            return o.view(SArr)
+        return r
+    ax = axis if axis >= 0 else a.ndim + axis
+    moved = _np.moveaxis(a, ax, 0)
+    out = _np.empty(moved.shape[1:], dtype=object)
+    for idx in _np.ndindex(out.shape):
+        r = moved[(0,) + idx]
+        for k in builtins.range(1, moved.shape[0]):
+            r = _mm(r, moved[(k,) + idx], is_min)
+        out[idx] = r
+    if keepdims:
+        out = _np.expand_dims(out, ax)
+    r = out.view(SArr)
+    r._dt = getattr(arr, "_dt", None)
+    return r
+
+
+def f_min(a, axis=None, out=None, keepdims=False, **kw):
+    if isinstance(a, _np.ndarray) and a.dtype == object:
+        return _fold_minmax(a, axis, keepdims, True)
+    return _np.min(a, axis=axis, keepdims=keepdims, **kw)
+
+
+def f_max(a, axis=None, out=None, keepdims=False, **kw):
+    if isinstance(a, _np.ndarray) and a.dtype == object:
+        return _fold_minmax(a, axis, keepdims, False)
+    return _np.max(a, axis=axis, keepdims=keepdims, **kw)
 
 
 def _boolify(x):
@@ -270,7 +327,18 @@ def _has_symbolic(x) -> bool:
     return False
 
 
+def _dt(dtype):
+    """the facade versions of the builtins stand for the builtin types when used as a dtype"""
+    from . import builtins_f
+    if dtype is builtins_f.sym_int:
+        return builtins.int
+    if dtype is builtins_f.sym_float:
+        return builtins.float
+    return dtype
+
+
 def _is_intlike_dtype(dtype):
+    dtype = _dt(dtype)
     if dtype is None:
         return False
     try:
@@ -294,6 +362,7 @@ def _all_int(values):
 # --------------------------------------------------------------------------- creation
 
 def f_zeros(shape, dtype=float, **kw):
+    dtype = _dt(dtype)
     if _is_intlike_dtype(dtype):
         return _np.zeros(shape, dtype=dtype)
     out = _np.empty(shape, dtype=object)
@@ -306,18 +375,21 @@ def f_zeros(shape, dtype=float, **kw):
 
 
 def f_ones(shape, dtype=float, **kw):
+    dtype = _dt(dtype)
     if _is_intlike_dtype(dtype):
         return _np.ones(shape, dtype=dtype)
     return f_zeros(shape, dtype) + 1
 
 
 def f_empty(shape, dtype=float, **kw):
+    dtype = _dt(dtype)
     if _is_intlike_dtype(dtype) or (dtype is object):
         return _np.empty(shape, dtype=dtype)
     return f_zeros(shape, dtype)
 
 
 def f_full(shape, fill_value, dtype=None, **kw):
+    dtype = _dt(dtype)
     if not _has_symbolic(fill_value) and (_is_intlike_dtype(dtype) or (dtype is None and _all_int(fill_value))):
         return _np.full(shape, fill_value, dtype=dtype)
     out = _np.empty(shape, dtype=object)
@@ -330,6 +402,7 @@ def f_full(shape, fill_value, dtype=None, **kw):
 
 
 def f_zeros_like(a, dtype=None, **kw):
+    dtype = _dt(dtype)
     if dtype is None:
         if isinstance(a, SArr) or (isinstance(a, _np.ndarray) and a.dtype == object):
             dtype = getattr(a, "_dt", None) or float
@@ -344,6 +417,7 @@ def f_ones_like(a, dtype=None, **kw):
 
 
 def f_array(obj, dtype=None, copy=True, **kw):
+    dtype = _dt(dtype)
     if isinstance(obj, SArr):
         r = obj.copy() if copy else obj
         if dtype is not None and not _is_intlike_dtype(dtype):
@@ -393,6 +467,7 @@ def _infer_dt(r):
 
 
 def f_asarray(obj, dtype=None, **kw):
+    dtype = _dt(dtype)
     if isinstance(obj, _np.ndarray) and (dtype is None or obj.dtype == object and not _is_intlike_dtype(dtype)):
         return obj
     return f_array(obj, dtype=dtype, copy=False)
@@ -687,6 +762,10 @@ class _Facade:
     identity = staticmethod(f_eye)
     where = staticmethod(f_where)
     histogram = staticmethod(f_histogram)
+    min = staticmethod(f_min)
+    amin = staticmethod(f_min)
+    max = staticmethod(f_max)
+    amax = staticmethod(f_max)
     abs = staticmethod(f_abs)
     absolute = staticmethod(f_abs)
     real = staticmethod(f_real)
